@@ -1,1 +1,475 @@
-fn main(){}
+//! C28 — compiled modules are deterministic and survive serialization.
+//!
+//! Determinism of the REAL compiler is observed, not proved: every generated policy is compiled
+//! twice in this process and once in each of two fresh child processes (`c28 --child <file>`: a new
+//! process has new `HashMap` seeds), and all four modules must serialize to identical bytes (CBOR —
+//! the format the policy-compiler CLI writes — and rkyv).
+//!
+//! Serialization: the module is round-tripped through every serialized form it offers (CBOR,
+//! rkyv, serde_json, postcard); a form that works for some modules but not for others, or that
+//! decodes to a different module, is a violation (a form that never works is reported as
+//! unsupported).  Each decoded module is loaded with `Machine::from_module`, must equal the
+//! original machine, and every action of the policy is re-executed with the same inputs on the
+//! original and on the reloaded machine (real `VmPolicy`, real storage): same result, same effects.
+//!
+//! Model tie: `Machine::from_module`'s name-keyed tables vs `AranyaV.Module.collect`.
+
+use std::collections::BTreeMap;
+use std::fmt::Write as _;
+use std::process::Command;
+
+use aranya_policy_module::{Module, ModuleData};
+use aranya_policy_vm::{Machine, Value};
+use vh::{fnv, hex, policykit as pk, Args, Recorder, Rng};
+
+const CMD_BOILER: &str = "    seal { return envelope::do_seal(payload) }\n    open { return envelope::do_open(payload, envelope) }\n";
+
+// ------------------------------------------------------------------ policy generator
+
+struct Policy {
+    src: String,
+    /// (action name, argument vectors)
+    calls: Vec<(String, Vec<Vec<Value>>)>,
+}
+
+fn name(rng: &mut Rng, prefix: &str, used: &mut Vec<String>) -> String {
+    const SYL: [&str; 12] = ["al", "be", "co", "du", "ex", "fi", "go", "hu", "ix", "jo", "ka", "lu"];
+    loop {
+        let n = format!("{prefix}{}{}{}", SYL[rng.below(12) as usize], SYL[rng.below(12) as usize], rng.below(100));
+        if !used.contains(&n) {
+            used.push(n.clone());
+            return n;
+        }
+    }
+}
+
+fn gen_policy(rng: &mut Rng) -> Policy {
+    let mut used = vec![];
+    let mut items: Vec<String> = vec![];
+    // enums
+    let enums: Vec<(String, Vec<String>)> = (0..rng.range(1, 3))
+        .map(|_| {
+            let n = name(rng, "E", &mut used);
+            let vs = (0..rng.range(2, 4)).map(|_| name(rng, "V", &mut used)).collect::<Vec<_>>();
+            (n, vs)
+        })
+        .collect();
+    for (n, vs) in &enums {
+        items.push(format!("enum {n} {{ {} }}\n", vs.join(", ")));
+    }
+    // globals
+    let globals: Vec<(String, i64)> = (0..rng.range(1, 4)).map(|_| (name(rng, "G", &mut used), rng.below(1000) as i64)).collect();
+    for (g, v) in &globals {
+        items.push(format!("let {g} = {v}\n"));
+    }
+    let gs = name(rng, "G", &mut used);
+    items.push(format!("let {gs} = \"{}\"\n", name(rng, "s", &mut vec![])));
+    let (e0, e0v) = (&enums[0].0, &enums[0].1);
+    let ge = name(rng, "G", &mut used);
+    items.push(format!("let {ge} = {e0}::{}\n", e0v[rng.below(e0v.len() as u64) as usize]));
+    // structs (later ones may embed / include earlier ones)
+    let mut structs: Vec<(String, Vec<(String, String)>)> = vec![];
+    for _ in 0..rng.range(1, 4) {
+        let n = name(rng, "S", &mut used);
+        let mut fields: Vec<(String, String)> = vec![];
+        let mut decl: Vec<String> = vec![];
+        if !structs.is_empty() && rng.chance(1, 3) {
+            let (bn, bf) = structs[rng.below(structs.len() as u64) as usize].clone();
+            decl.push(format!("+{bn}"));
+            fields.extend(bf);
+        }
+        for _ in 0..rng.range(1, 3) {
+            let f = name(rng, "f", &mut used);
+            let ty = match rng.below(5) {
+                0 => "int".to_string(),
+                1 => "string".to_string(),
+                2 => "bool".to_string(),
+                3 => format!("enum {e0}"),
+                _ => "optional int".to_string(),
+            };
+            decl.push(format!("{f} {ty}"));
+            fields.push((f, ty));
+        }
+        items.push(format!("struct {n} {{ {} }}\n", decl.join(", ")));
+        structs.push((n, fields));
+    }
+    let lit = |ty: &str, x: &str, e0: &str, e0v: &[String]| -> String {
+        match ty {
+            "int" => x.to_string(),
+            "string" => "\"q\"".to_string(),
+            "bool" => format!("{x} > 2"),
+            "optional int" => format!("Some({x})"),
+            _ => format!("{e0}::{}", e0v[0]),
+        }
+    };
+    // facts
+    let facts: Vec<String> = (0..rng.range(1, 3)).map(|_| name(rng, "F", &mut used)).collect();
+    for f in &facts {
+        items.push(format!("fact {f}[k int]=>{{v int, w string}}\n"));
+    }
+    // effects
+    let effects: Vec<String> = (0..rng.range(1, 3)).map(|_| name(rng, "X", &mut used)).collect();
+    for x in &effects {
+        items.push(format!("effect {x} {{ a int, b string, c bool, d enum {e0} }}\n"));
+    }
+    // functions
+    let (g0, _) = &globals[0];
+    let pf: Vec<String> = (0..rng.range(1, 3)).map(|_| name(rng, "p", &mut used)).collect();
+    for (i, f) in pf.iter().enumerate() {
+        let inner = if i > 0 && rng.chance(1, 2) { format!("{}(x)", pf[i - 1]) } else { "x".to_string() };
+        items.push(format!(
+            "function {f}(x int) int {{\n    if x > {} {{\n        return saturating_add({inner}, {g0})\n    }}\n    return saturating_sub({inner}, {})\n}}\n",
+            rng.below(50),
+            rng.below(9)
+        ));
+    }
+    let (s0, s0f) = structs[0].clone();
+    let mk = name(rng, "p", &mut used);
+    items.push(format!(
+        "function {mk}(x int) struct {s0} {{\n    return {s0} {{ {} }}\n}}\n",
+        s0f.iter().map(|(f, t)| format!("{f}: {}", lit(t, "x", e0, e0v))).collect::<Vec<_>>().join(", ")
+    ));
+    let ff = name(rng, "q", &mut used);
+    let x0 = &effects[0];
+    items.push(format!(
+        "finish function {ff}(x int, s string) {{\n    emit {x0} {{ a: x, b: s, c: true, d: {ge} }}\n}}\n"
+    ));
+    // commands + actions
+    let mut calls = vec![];
+    let ncmd = rng.range(1, 3);
+    for ci in 0..ncmd {
+        let c = name(rng, "C", &mut used);
+        let a = name(rng, "a", &mut used);
+        let f = &facts[rng.below(facts.len() as u64) as usize];
+        let x = &effects[rng.below(effects.len() as u64) as usize];
+        let p = &pf[rng.below(pf.len() as u64) as usize];
+        let r = name(rng, "r", &mut used);
+        let first_int_field = s0f.iter().find(|(_, t)| t == "int").map(|(f, _)| f.clone());
+        let sfield = match &first_int_field {
+            Some(fl) => format!("        let st = {mk}(y)\n        let z = st.{fl}\n"),
+            None => "        let z = y\n".to_string(),
+        };
+        let variant = rng.below(3);
+        let body = match variant {
+            0 => format!(
+                "        let y = {p}(this.n)\n{sfield}        check this.n > 0 else recall {r}(y)\n        let ex = exists {f}[k: this.n]\n        finish {{\n            create {f}[k: y]=>{{v: z, w: this.t}}\n            emit {x} {{ a: y, b: this.t, c: ex, d: {ge} }}\n            {ff}(z, {gs})\n        }}\n"
+            ),
+            1 => format!(
+                "        let y = {p}(this.n)\n{sfield}        check this.n > 0 else recall {r}(y)\n        let cnt = count_up_to 5 {f}[k: ?]\n        match this.n {{\n            1 => {{\n                finish {{ emit {x} {{ a: cnt, b: {gs}, c: false, d: {ge} }} }}\n            }}\n            _ => {{\n                finish {{\n                    create {f}[k: y]=>{{v: cnt, w: this.t}}\n                    emit {x} {{ a: z, b: this.t, c: true, d: {e0}::{} }}\n                }}\n            }}\n        }}\n",
+                e0v[e0v.len() - 1]
+            ),
+            _ => format!(
+                "        let y = {p}(this.n)\n{sfield}        check this.n > 0 else recall {r}(y)\n        let q = query {f}[k: ?]=>{{v: ?, w: ?}}\n        if q is Some {{\n            let g = q or test_fail()\n            finish {{ emit {x} {{ a: g.v, b: g.w, c: true, d: {ge} }} }}\n        }} else {{\n            finish {{\n                create {f}[k: y]=>{{v: z, w: {gs}}}\n                {ff}(y, this.t)\n            }}\n        }}\n"
+            ),
+        };
+        items.push(format!(
+            "command {c} {{\n    attributes {{ priority: {} }}\n    fields {{ n int, t string }}\n{CMD_BOILER}    policy {{\n{body}    }}\n    recall {r}(y int) {{\n        finish {{ emit {x} {{ a: y, b: \"recalled\", c: false, d: {ge} }} }}\n    }}\n}}\n",
+            rng.below(5)
+        ));
+        let second = if ci > 0 && rng.chance(1, 2) { format!("    publish {c} {{ n: saturating_add(n, 1), t: t }}\n") } else { String::new() };
+        items.push(format!("action {a}(n int, t string) {{\n    publish {c} {{ n: n, t: t }}\n{second}}}\n"));
+        let vecs = (0..3)
+            .map(|_| {
+                vec![
+                    Value::Int([-3i64, 0, 1, 2, 7, 40, 1000][rng.below(7) as usize]),
+                    Value::String(["x", "hello", ""][rng.below(3) as usize].parse().unwrap()),
+                ]
+            })
+            .collect();
+        calls.push((a, vecs));
+    }
+    rng.shuffle(&mut items);
+    let mut src = String::from("use envelope\n\n");
+    write!(
+        src,
+        "command Init {{\n    attributes {{ init: true }}\n    fields {{ nonce int }}\n{CMD_BOILER}    policy {{ finish {{}} }}\n}}\naction init(nonce int) {{ publish Init {{ nonce: nonce }} }}\n\n"
+    )
+    .unwrap();
+    for it in items {
+        src.push_str(&it);
+        src.push('\n');
+    }
+    Policy { src, calls }
+}
+
+// ------------------------------------------------------------------ serialized forms
+
+fn cbor(m: &Module) -> Result<Vec<u8>, String> {
+    let mut out = vec![];
+    ciborium::into_writer(m, &mut out).map_err(|e| e.to_string())?;
+    Ok(out)
+}
+fn uncbor(b: &[u8]) -> Result<Module, String> {
+    ciborium::from_reader(b).map_err(|e| e.to_string())
+}
+fn rk(m: &Module) -> Result<Vec<u8>, String> {
+    rkyv::to_bytes::<rkyv::rancor::Error>(m).map(|v| v.to_vec()).map_err(|e| e.to_string())
+}
+fn unrk(b: &[u8]) -> Result<Module, String> {
+    let mut al = rkyv::util::AlignedVec::<16>::new();
+    al.extend_from_slice(b);
+    rkyv::from_bytes::<Module, rkyv::rancor::Error>(&al).map_err(|e| e.to_string())
+}
+fn json(m: &Module) -> Result<Vec<u8>, String> {
+    serde_json::to_vec(m).map_err(|e| e.to_string())
+}
+fn unjson(b: &[u8]) -> Result<Module, String> {
+    serde_json::from_slice(b).map_err(|e| e.to_string())
+}
+fn pc(m: &Module) -> Result<Vec<u8>, String> {
+    postcard::to_allocvec(m).map_err(|e| e.to_string())
+}
+fn unpc(b: &[u8]) -> Result<Module, String> {
+    postcard::from_bytes(b).map_err(|e| e.to_string())
+}
+
+type Enc = fn(&Module) -> Result<Vec<u8>, String>;
+type Dec = fn(&[u8]) -> Result<Module, String>;
+const FORMS: [(&str, Enc, Dec); 4] = [("cbor", cbor, uncbor), ("rkyv", rk, unrk), ("json", json, unjson), ("postcard", pc, unpc)];
+
+// ------------------------------------------------------------------ execution
+
+fn show_run(w: &mut pk::World, calls: &[(String, Vec<Vec<Value>>)]) -> Vec<String> {
+    let mut out = vec![];
+    for (a, vecs) in calls {
+        for args in vecs {
+            let (r, sink) = w.act(a, args);
+            let effs: Vec<String> = sink
+                .effects()
+                .iter()
+                .map(|e| format!("{}{{{}}}{}", e.name, pk::show_fields(&e.fields), if e.recalled { "R" } else { "" }))
+                .collect();
+            out.push(format!("{a}({}) -> {} [{}]", args.iter().map(pk::show_value).collect::<Vec<_>>().join(","), if r.is_ok() { "ok" } else { "err" }, effs.join(" ")));
+        }
+    }
+    out
+}
+
+fn table_lines(rec: &mut Recorder, m: &Module, machine: &Machine) {
+    let ModuleData::V0(v0) = &m.data;
+    fn one(rec: &mut Recorder, module_names: Vec<String>, machine_names: Vec<String>) {
+        let idx: BTreeMap<&String, usize> = module_names.iter().enumerate().map(|(i, n)| (n, i)).collect();
+        let req = format!("collect {}", module_names.iter().map(|n| hex(n.as_bytes())).collect::<Vec<_>>().join(" "));
+        let real = if machine_names.is_empty() {
+            "empty".to_string()
+        } else {
+            machine_names.iter().map(|n| format!("{}:{}", hex(n.as_bytes()), idx.get(n).copied().unwrap_or(usize::MAX))).collect::<Vec<_>>().join(" ")
+        };
+        rec.line(req.trim_end().to_string(), real);
+        // S level: nothing lost, nothing invented
+        let mut a = module_names.clone();
+        a.sort();
+        let mut b = machine_names.clone();
+        b.sort();
+        if a != b {
+            rec.oracle_fail("Machine::from_module lost or invented a definition");
+        }
+        if let Some(n) = module_names.first() {
+            rec.line(
+                format!("get {} / {}", hex(n.as_bytes()), module_names.iter().map(|n| hex(n.as_bytes())).collect::<Vec<_>>().join(" ")),
+                if machine_names.contains(n) { "some 0".to_string() } else { "none".to_string() },
+            );
+        }
+    }
+    one(rec, v0.action_defs.iter().map(|d| d.name.to_string()).collect(), machine.action_defs.iter().map(|d| d.name.to_string()).collect());
+    one(rec, v0.command_defs.iter().map(|d| d.name.to_string()).collect(), machine.command_defs.iter().map(|d| d.name.to_string()).collect());
+    one(rec, v0.fact_defs.iter().map(|d| d.name.to_string()).collect(), machine.fact_defs.iter().map(|d| d.name.to_string()).collect());
+    one(rec, v0.struct_defs.iter().map(|d| d.name.to_string()).collect(), machine.struct_defs.iter().map(|d| d.name.to_string()).collect());
+    one(rec, v0.enum_defs.iter().map(|d| d.name.to_string()).collect(), machine.enum_defs.iter().map(|d| d.name.to_string()).collect());
+}
+
+fn child_compile(path: &std::path::Path) -> Result<String, String> {
+    let exe = std::env::current_exe().map_err(|e| e.to_string())?;
+    let out = Command::new(exe).arg("--child").arg(path).output().map_err(|e| e.to_string())?;
+    if !out.status.success() {
+        return Err(format!("child failed: {}", String::from_utf8_lossy(&out.stderr)));
+    }
+    Ok(String::from_utf8_lossy(&out.stdout).trim().to_string())
+}
+
+fn child_main(path: &str) {
+    let src = std::fs::read_to_string(path).expect("read");
+    match pk::compile(&src, true) {
+        pk::Compiled::Ok(m) => println!("{} {}", hex(&cbor(&m).unwrap()), hex(&rk(&m).unwrap())),
+        pk::Compiled::ParseError(e) | pk::Compiled::Rejected(e) => {
+            eprintln!("{e}");
+            std::process::exit(3)
+        }
+    }
+}
+
+struct FormStats {
+    ok: u64,
+    enc_err: u64,
+    dec_err: u64,
+    last_err: String,
+}
+
+fn one_case(rec: &mut Recorder, rng: &mut Rng, scratch: &std::path::Path, forms: &mut BTreeMap<&'static str, FormStats>, children: bool) {
+    let pol = gen_policy(rng);
+    let m1 = match pk::compile(&pol.src, true) {
+        pk::Compiled::Ok(m) => m,
+        pk::Compiled::ParseError(e) | pk::Compiled::Rejected(e) => {
+            rec.oracle_fail(format!("generated policy not accepted: {}", e.lines().take(6).collect::<Vec<_>>().join(" | ")));
+            rec.sample(pol.src.clone());
+            return;
+        }
+    };
+    if rec.cases() <= 1 {
+        rec.sample(pol.src.clone());
+    }
+    rec.nontrivial(fnv(&pol.src));
+    // ---- determinism, in process
+    let m2 = match pk::compile(&pol.src, true) {
+        pk::Compiled::Ok(m) => m,
+        _ => {
+            rec.oracle_fail("second compilation of the same text was rejected");
+            return;
+        }
+    };
+    if m1 != m2 {
+        rec.oracle_fail("two compilations of the same policy text gave different modules");
+    }
+    let (c1, r1) = (cbor(&m1).unwrap_or_default(), rk(&m1).unwrap_or_default());
+    if c1 != cbor(&m2).unwrap_or_default() || r1 != rk(&m2).unwrap_or_default() {
+        rec.oracle_fail("two compilations of the same policy text serialize differently");
+    }
+    // ---- determinism, across processes
+    if children {
+        let path = scratch.join(format!("c28-{}.policy", std::process::id()));
+        std::fs::write(&path, &pol.src).expect("write policy");
+        for k in 0..2 {
+            match child_compile(&path) {
+                Ok(s) => {
+                    rec.count("child-compiles");
+                    if s != format!("{} {}", hex(&c1), hex(&r1)) {
+                        rec.oracle_fail(format!("child process {k} compiled the same policy text to a different serialized module"));
+                    }
+                }
+                Err(e) => rec.oracle_fail(format!("child compile: {e}")),
+            }
+        }
+        let _ = std::fs::remove_file(&path);
+    }
+    // ---- model tie + machine
+    let machine1 = match Machine::from_module(m1.clone()) {
+        Ok(m) => m,
+        Err(e) => {
+            rec.oracle_fail(format!("from_module: {e}"));
+            return;
+        }
+    };
+    table_lines(rec, &m1, &machine1);
+    // ---- serialized forms
+    let mut reloaded: Vec<(&'static str, Machine)> = vec![];
+    for (fname, enc, dec) in FORMS {
+        let st = forms.entry(fname).or_insert(FormStats { ok: 0, enc_err: 0, dec_err: 0, last_err: String::new() });
+        match enc(&m1) {
+            Err(e) => {
+                st.enc_err += 1;
+                st.last_err = e;
+            }
+            Ok(bytes) => match dec(&bytes) {
+                Err(e) => {
+                    st.dec_err += 1;
+                    st.last_err = e;
+                }
+                Ok(m) => {
+                    st.ok += 1;
+                    if m != m1 {
+                        rec.oracle_fail(format!("{fname}: decoded module differs from the original"));
+                    }
+                    match enc(&m) {
+                        Ok(b2) if b2 == bytes => {}
+                        _ => rec.oracle_fail(format!("{fname}: re-encoding the decoded module gives different bytes")),
+                    }
+                    match Machine::from_module(m) {
+                        Ok(mm) => {
+                            if mm != machine1 {
+                                rec.oracle_fail(format!("{fname}: reloaded machine differs from the original machine"));
+                            }
+                            reloaded.push((fname, mm));
+                        }
+                        Err(e) => rec.oracle_fail(format!("{fname}: from_module of the decoded module: {e}")),
+                    }
+                }
+            },
+        }
+    }
+    // ---- re-execution
+    let base = match pk::World::from_machine(machine1) {
+        Ok(mut w) => show_run(&mut w, &pol.calls),
+        Err(e) => {
+            rec.oracle_fail(format!("world: {e}"));
+            return;
+        }
+    };
+    rec.count_n("entry-point-runs", base.len() as u64);
+    for l in &base {
+        rec.count(if l.contains("-> ok") { "run:ok" } else { "run:err" });
+        if l.contains("}R") {
+            rec.count("run:recalled-effect");
+        }
+    }
+    if rec.samples.len() < 3 {
+        rec.sample(base.join(" ; "));
+    }
+    for (fname, mm) in reloaded {
+        match pk::World::from_machine(mm) {
+            Ok(mut w) => {
+                let got = show_run(&mut w, &pol.calls);
+                if got != base {
+                    let i = got.iter().zip(&base).position(|(a, b)| a != b).unwrap_or(0);
+                    rec.oracle_fail(format!("{fname}: re-execution differs: `{}` vs original `{}`", got.get(i).cloned().unwrap_or_default(), base.get(i).cloned().unwrap_or_default()));
+                }
+            }
+            Err(e) => rec.oracle_fail(format!("{fname}: world: {e}")),
+        }
+    }
+}
+
+fn main() {
+    let argv: Vec<String> = std::env::args().collect();
+    if argv.len() == 3 && argv[1] == "--child" {
+        child_main(&argv[2]);
+        return;
+    }
+    let args = Args::parse();
+    vh::quiet_panics();
+    let mut rec = Recorder::new(&args.out);
+    let scratch = std::env::var("VERIF_SCRATCH").map(std::path::PathBuf::from).unwrap_or_else(|_| std::env::temp_dir());
+    std::fs::create_dir_all(&scratch).ok();
+    let mut forms: BTreeMap<&'static str, FormStats> = BTreeMap::new();
+    let (seed, cases, start) = match &args.replay {
+        // a case is a pure function of (seed, index): replay files hold `gen <seed> <index>`
+        Some(p) => {
+            let l = vh::read_replay_input(p);
+            let t: Vec<u64> = l.iter().find(|l| l.starts_with("gen ")).map(|l| l.split(' ').skip(1).filter_map(|x| x.parse().ok()).collect()).unwrap_or_default();
+            if t.len() != 2 {
+                rec.finish(args.seed, &args.tier);
+                return;
+            }
+            (t[0], 1usize, t[1])
+        }
+        None => (args.seed, args.budget(40, 600), 0),
+    };
+    let mut rng = Rng::new(seed);
+    for _ in 0..start {
+        let _ = rng.fork();
+    }
+    for k in 0..cases {
+        let mut crng = rng.fork();
+        rec.begin_case();
+        rec.line(format!("gen {seed} {}", start + k as u64), "bad-op");
+        // child processes are expensive on a loaded machine: every 4th case (every case in thorough)
+        let children = args.thorough() || args.search || k % 4 == 0 || args.replay.is_some();
+        one_case(&mut rec, &mut crng, &scratch, &mut forms, children);
+    }
+    for (f, st) in &forms {
+        rec.notes.push(format!("form {f}: {} round trips, {} encode errors, {} decode errors{}", st.ok, st.enc_err, st.dec_err, if st.last_err.is_empty() { String::new() } else { format!(" (last: {})", st.last_err) }));
+        if st.ok > 0 && st.enc_err + st.dec_err > 0 {
+            rec.oracle_fail(format!("form {f} round-trips some modules but fails on others: {}", st.last_err));
+        }
+    }
+    rec.finish(args.seed, &args.tier);
+}
